@@ -2,18 +2,90 @@
 Instantiation of the enc/v1 model with the Lean-native primitives (`KitModel/Crypto`) and the
 concrete codec (`KitModel/EncCodec`), and the line-protocol entry point used by
 `kitdrv C01` / `kitdrv C02`.
+
+ops (besides `ps`, `pst`, `rh` of `KitModel/EncDrv.lean`)
+* `caps` → `real=1`
+* `enc fk= np= wfk= kw= cph= keyname= plain=` → `doc=<hex>`: the specification encoder
+  `specEncrypt` (README.md) over AES-GCM / ChaCha20-Poly1305 / HKDF / HMAC written in Lean.
+* `dec fk=<hex|none|wfk> keyname=<hex> data= caps= ewd= term=` → `out=<hex> term=<name>`:
+  `decryptImpl` on the given source script; `fk` is what `UnwrapKeyFn` returned in the real run
+  (`wfk` = identity unwrap, `none` = it was not called).
+* `specdec fk= data=` → `out=<hex>` / `fail`: the README-only decoder `specDecrypt`.
+Answers `unmodelled=<why>` when the manifest / key name is outside the modelled JSON subset.
 -/
 import KitModel.Go.Prelude
 import KitModel.Enc
 import KitModel.EncDrv
+import KitModel.EncCodec
+import KitModel.Crypto.Hmac
+import KitModel.Crypto.Gcm
+import KitModel.Crypto.ChaCha
 
 namespace Kit.Enc.Real
 open Kit Kit.Enc
+
+def realCrypto : Crypto where
+  aseal cph k n p := if cph == 2 then Kit.Crypto.chacha20Poly1305Seal k n p [] else Kit.Crypto.gcmSeal k n p []
+  aopen cph k n x := if cph == 2 then Kit.Crypto.chacha20Poly1305Open k n x [] else Kit.Crypto.gcmOpen k n x []
+  hkdf ikm salt info len := Kit.Crypto.hkdf .sha256 ikm salt info len
+  hmac k msg := Kit.Crypto.hmac .sha256 k msg
+
+def P : EncParams := EncParams.generated
+def realCodec : Codec := Kit.Enc.Codec.real P
+
+def answerReal (l : Line) : Option String :=
+  match l.op with
+  | "caps" => some "real=1"
+  | "enc" => some <| (do
+      let fk ← l.hex? "fk"
+      let np ← l.hex? "np"
+      let wfk ← l.hex? "wfk"
+      let kw ← l.nat? "kw"
+      let cph ← l.nat? "cph"
+      let kn ← l.hex? "keyname"
+      let plain ← l.hex? "plain"
+      if !Kit.Enc.Codec.isAscii kn then pure "unmodelled=keyname-non-ascii"
+      else if wfk.isEmpty then pure "unmodelled=wfk-empty"
+      else pure s!"doc={toHex (specEncrypt realCrypto realCodec P fk ⟨kn, kw, wfk, cph, np⟩ plain)}"
+      : Option String).getD "bad-request"
+  | "dec" => some <| (do
+      let r ← Drv.readerOf l
+      let kn ← l.hex? "keyname"
+      let fkArg := (l.get? "fk").getD "none"
+      let unwrap : Manifest → Bytes → Bytes ←
+        if fkArg == "wfk" then some (fun m _ => m.wfk)
+        else if fkArg == "none" then some (fun _ _ => [])
+        else (fromHex fkArg).map (fun k => fun _ _ => k)
+      -- is the manifest of this stream inside the modelled JSON subset?
+      let unmodelled : Option String :=
+        match readHeader P r with
+        | .ok (ml, _, _) =>
+          match Kit.Enc.Codec.parseManifest P ml with
+          | .unmodelled why => some why
+          | _ => none
+        | .error _ => none
+      match unmodelled with
+      | some why => pure s!"unmodelled={why}"
+      | none =>
+        let res := decryptImpl realCrypto realCodec P ⟨kn, unwrap⟩ r
+        pure s!"out={toHex res.1} term={res.2.name}"
+      : Option String).getD "bad-request"
+  | "specdec" => some <| (do
+      let fk ← l.hex? "fk"
+      let doc ← l.hex? "data"
+      match specDecrypt realCrypto realCodec P fk doc with
+      | some p => pure s!"out={toHex p}"
+      | none => pure "fail"
+      : Option String).getD "bad-request"
+  | _ => none
 
 def answer (line : String) : String :=
   let l := parseLine line
   match Drv.answerBasic l with
   | some s => s
-  | none => "unknown-op"
+  | none =>
+    match answerReal l with
+    | some s => s
+    | none => "unknown-op"
 
 end Kit.Enc.Real
